@@ -176,6 +176,18 @@ class Formatter:
         """Integer literal representation in target language."""
         raise NotImplementedError
 
+    @overridable
+    def escape_str_value(self, value: str) -> str:
+        """Escapes special characters of given string value, to be placed inside a
+        double-quoted string literal in target language."""
+        return (
+            value.replace("\\", "\\\\")
+            .replace('"', '\\"')
+            .replace("\n", "\\n")
+            .replace("\r", "\\r")
+            .replace("\t", "\\t")
+        )
+
     @abstractmethod
     def format_bool_type(self) -> str:
         """Bool type representation in target language."""
